@@ -1506,3 +1506,54 @@ def c01h(F, R):
             R.bad(what, f"{what} map: `{m['name']}` covers {sorted(seen)} (fed by the kill set: {fed}) but values of kind {sorted(cur - seen)} also name a current register", loc(m))
         else:
             R.bad(what, f"the {what} map keeps values of kind {sorted(cur)} after the register they name is overwritten: `sw a0,0(sp); li a0,9; lw t1,0(sp)` claims slot = 9 and t1 = a0", f["sp"])
+
+
+@rule("C03", "C03.e.label-transfers-are-edges-or-calls", floor=4)
+def c03e(F, R):
+    """every instruction that transfers control to a label is seen either as a call (calls_to) or as a jump (jumps_to), for every link register: `jal rd, L` with rd = x0, ra or any other register, and every branch; NodeDirectionPass draws its label edges from jumps_to()"""
+    from .nodeprops import eval_prop, Unx
+    cases = [("JumpLink", {"rd": "X0"}, False), ("JumpLink", {"rd": "X1"}, True), ("JumpLink", {"rd": "X5"}, False), ("JumpLink", {"rd": "X31"}, False),
+             ("Branch", {"rs1": "X5", "rs2": "X6", "inst": "Beq"}, False), ("Branch", {"rs1": "X0", "rs2": "X0", "inst": "Bne"}, False)]
+    for v, env, is_call in cases:
+        key = f"{v}|" + ",".join(f"{k}={x}" for k, x in sorted(env.items()))
+        try:
+            c = eval_prop(F, "calls_to", v, env)
+            j = eval_prop(F, "jumps_to", v, env)
+        except Unx as ex:
+            R.bad(key + "|unextractable", f"UNEXTRACTABLE: cannot evaluate calls_to/jumps_to for {v} {env}: {ex}", None)
+            continue
+        if is_call and c == "some" and j == "none":
+            R.ok(key, detail="a call: calls_to = Some, jumps_to = None")
+        elif not is_call and c == "none" and j == "some":
+            R.ok(key, detail="a jump: jumps_to = Some(label), calls_to = None")
+        elif c == "none" and j == "none":
+            R.bad(key, f"`{v.lower()}` with {env} transfers control to its label but is neither a call nor a jump (calls_to = None, jumps_to = None): the edge to the label is missing and the target can be reported unreachable", F.fn(F.method(PNODE, "jumps_to", trait=IPROPS))["sp"])
+        else:
+            R.bad(key, f"`{v.lower()}` with {env}: calls_to = {c}, jumps_to = {j} (expected {'call' if is_call else 'jump'} only)", F.fn(F.method(PNODE, "jumps_to", trait=IPROPS))["sp"])
+    # other variants never jump to a label
+    for v in F.variants(PNODE):
+        if v in ("JumpLink", "Branch"):
+            continue
+        try:
+            j = eval_prop(F, "jumps_to", v, {})
+        except Unx:
+            j = "?"
+        if j == "some":
+            R.bad(f"{v}|jumps", f"{v} is treated as a jump to a label", None)
+    gens = pass_impls(F, GENPASS)
+    nd = [rp for t, rp in gens.items() if t.endswith("NodeDirectionPass")]
+    f = F.fn(nd[0])
+    srcs = []
+    for n in walk(f["hir"]["value"], pats=False):
+        if n.get("k") == "If":
+            c = n["cond"]
+            while c.get("k") in ("DropTemps", "Use"):
+                c = c["e"]
+            # the label edge: the branch that looks a node up by label and links it
+            if c.get("k") == "LetExpr" and any(m.get("k") == "MethodCall" and m["name"] == "insert_next" for m in walk(n["then"], pats=False)) \
+                    and any(m.get("k") == "Field" and m.get("name") == "labels" for m in walk(n["then"])):
+                srcs.append(peel(c["init"]))
+    if len(srcs) == 1 and srcs[0].get("k") == "MethodCall" and srcs[0]["name"] == "jumps_to":
+        R.ok("edge-source", detail="NodeDirectionPass adds the label edge for `node.jumps_to()`")
+    else:
+        R.bad("edge-source", f"NodeDirectionPass draws label edges from {[ekey(x) for x in srcs]}, not from jumps_to() alone", f["sp"])
